@@ -932,8 +932,13 @@ type rbEnv struct {
 	cls    [2]*s3c.Client
 }
 
-func rbStartEnv(c *core.Ctx, cfg rbCfg) (*rbEnv, error) {
-	env, err := NewEnv(c, cfg.Vdir == "on", cfg.Meta == "sidecar", func(g *gw.Config) { g.NoTmp = cfg.Tmp == "named" })
+func rbStartEnv(c *core.Ctx, cfg rbCfg, tweak ...func(*gw.Config)) (*rbEnv, error) {
+	env, err := NewEnv(c, cfg.Vdir == "on", cfg.Meta == "sidecar", func(g *gw.Config) {
+		g.NoTmp = cfg.Tmp == "named"
+		for _, t := range tweak {
+			t(g)
+		}
+	})
 	if err != nil {
 		return nil, err
 	}
@@ -1050,6 +1055,14 @@ func (e *rbEnv) run(c *core.Ctx, cases []rbCase, workers int, deadline time.Time
 			return len(cases) - lo
 		}
 		var restart, rest []rbCase
+		if len(cases) > 0 && cases[0].Idx >= 1000000 {
+			// the crowd: every upload first (side by side), then the reads
+			cs := cases[lo:hi]
+			pend := make([]pending, len(cs))
+			par(len(cs), func(i int) { pend[i] = do(cs[i]) })
+			par(len(cs), func(i int) { finish(pend[i]) })
+			continue
+		}
 		for _, cs := range cases[lo:hi] {
 			if cs.Asg == "restart" {
 				restart = append(restart, cs)
@@ -1586,6 +1599,56 @@ func C01(c *core.Ctx, replay string) {
 		return
 	}
 
+	// --- 5b. the crowd: streamed uploads of several 64 KiB chunks by eight clients at once,
+	// on a gateway with two processors (what a body decoder keeps between two reads of one
+	// request must not be shared with the decoder of another request)
+	{
+		var pool []rbVec
+		for _, v := range light {
+			// (mostly the unsigned streamed encoding: its decoder hands the body on in pieces)
+			if v.D.Enc.Kind == "stream-unsigned-trailer" || (strings.HasPrefix(v.D.Enc.Kind, "stream-") && len(pool)%4 == 3) {
+				pool = append(pool, v)
+			}
+		}
+		if len(pool) == 0 {
+			c.Inconclusive("crowd stage: no streamed encodings among the vectors")
+			return
+		}
+		cf := rbCfg{Meta: "xattr", Tmp: "otmp", Vdir: "off", Bver: "unset"}
+		var crowd []rbCase
+		for i := 0; i < c.Pick(96, 480); i++ {
+			v := pool[c.Rng.Intn(len(pool))]
+			d := v.D
+			d.Size = []string{"262145", "786433"}[i%2]
+			crowd = append(crowd, rbCase{Idx: 1000000 + i, D: d, Cfg: cf, Asg: "same", Chunks: 2})
+		}
+		ce, err := rbStartEnv(c, cf, func(g *gw.Config) {
+			if g.Env == nil {
+				g.Env = map[string]string{}
+			}
+			g.Env["GOMAXPROCS"] = "2"
+		})
+		if err != nil {
+			c.Inconclusive("crowd stage: start gateways: %v", err)
+			return
+		}
+		cout := make(chan rbLine, len(crowd)+8)
+		ce.run(c, crowd, 8, time.Now().Add(3*time.Minute), cout)
+		close(cout)
+		ce.close()
+		var cl []rbLine
+		for l := range cout {
+			cl = append(cl, l)
+		}
+		sort.Slice(cl, func(i, j int) bool { return cl[i].Idx < cl[j].Idx })
+		c.Extra["crowd_uploads"] = len(cl)
+		rbJudge(c, cl)
+		c.Logf("crowd stage: %d concurrent streamed uploads judged", len(cl))
+		if c.NumViolations() > 40 {
+			return
+		}
+	}
+
 	// --- 6. behaviours of the abstract gateway spec on every configuration, two processes
 	c01Behaviours(c, envs, envOrder)
 }
@@ -1740,7 +1803,7 @@ func rbJudge(c *core.Ctx, lines []rbLine) {
 	c.Extra["refused_uploads"] = refused
 	c.Extra["acknowledged_per_encoding"] = encSeen
 	c.Extra["acknowledged_per_config_assignment"] = cfgSeen
-	if len(lines) > 50 {
+	if len(lines) > 50 && lines[0].Idx < 1000000 {
 		for _, v := range rbAllEncNames {
 			if encSeen[v] == 0 {
 				c.Inconclusive("no acknowledged vector for encoding %s", v)
